@@ -344,7 +344,8 @@ Definition reset_counter (s : bs) : bs := set_rcur s 0.
 (** *** abstraction to the ideal bit list *)
 Definition abs (s : bs) : bits := firstn (len s) (buf s).
 Definition Inv (s : bs) : Prop :=
-  (len s <= cap s)%nat /\ (cap s <= length (buf s))%nat /\ (rcur s <= len s)%nat.
+  (len s <= cap s)%nat /\ (cap s <= length (buf s))%nat /\ (rcur s <= len s)%nat /\
+  (length (buf s) mod 8 = 0)%nat.   (* the buffer is a whole number of bytes *)
 
 (** *** Fift hex text form, over lists of hex-digit values 0..15 plus a flag
     for the trailing underscore (the character mapping is checked by the
